@@ -11,6 +11,8 @@
          a shared state (pure tasks ignore it).
    (iii) seeded sampling in the style of _get_intervals over an abstract RNG stream; worlds with a
          global RNG; estimators that keep (or do not keep) a generator between calls.
+   (iv)  the cutoff discipline of predict: programs over one field of the estimator with
+         save / restore regions; regenerated (translator/cutoff_c12.py -> C12/Cutoff.v).
    What is NOT here: threads, pickle, BLAS - sampled by the correspondence run (props/c12.py). *)
 From Coq Require Import ZArith List Bool Arith.
 Import ListNotations.
@@ -388,6 +390,58 @@ Definition rec_randint (bound : Z) (s : list (Z * Z)) : option (Z * list (Z * Z)
   match s with
   | (b, v) :: t => if (b =? bound)%Z && (0 <=? v)%Z && (v <? bound)%Z then Some (v, t) else None
   | [] => None
+  end.
+
+(* ================================================================================ (iv) *)
+
+(* The cutoff discipline of `predict`: the code reachable from predict reduced to what it does to
+   ONE field of the estimator (the cutoff).  `KSet k` = an assignment of the field (any new value),
+   `KDetached b` = `with self._detached_cutoff(): b` (save the field, run b, put it back - also when
+   b is left by return / raise), `KAbort` = return / raise (leaves the enclosing function: `KCall`
+   is a function boundary), conditions and loop counts opaque. *)
+Inductive kstmt :=
+  | KSkip
+  | KSet (k : nat)
+  | KAbort
+  | KSeq (a b : kstmt)
+  | KIf (c : nat) (a b : kstmt)
+  | KLoop (n : nat) (b : kstmt)
+  | KDetached (b : kstmt)
+  | KCall (b : kstmt).
+
+Section Cutoff.
+  Variable setv : nat -> Z -> Z.        (* the value the k-th assignment stores *)
+  Variable kcond : nat -> Z -> bool.
+  Variable kcnt : nat -> Z -> nat.
+
+  Fixpoint kiter (n : nat) (f : Z -> Z * bool) (s : Z) : Z * bool :=
+    match n with
+    | O => (s, false)
+    | S n' => let '(s1, ab) := f s in if ab then (s1, true) else kiter n' f s1
+    end.
+
+  (* (cutoff afterwards, left by return / raise) *)
+  Fixpoint kexec (p : kstmt) (s : Z) : Z * bool :=
+    match p with
+    | KSkip => (s, false)
+    | KSet k => (setv k s, false)
+    | KAbort => (s, true)
+    | KSeq a b => let '(s1, ab) := kexec a s in if ab then (s1, true) else kexec b s1
+    | KIf c a b => if kcond c s then kexec a s else kexec b s
+    | KLoop n b => kiter (kcnt n s) (kexec b) s
+    | KDetached b => let '(_, ab) := kexec b s in (s, ab)
+    | KCall b => (fst (kexec b s), false)
+    end.
+End Cutoff.
+
+(* every assignment of the field lies inside a detached region *)
+Fixpoint guarded (p : kstmt) : bool :=
+  match p with
+  | KSet _ => false
+  | KDetached _ => true
+  | KSeq a b | KIf _ a b => guarded a && guarded b
+  | KLoop _ b | KCall b => guarded b
+  | KSkip | KAbort => true
   end.
 
 (* ================================================================== call-site facts *)
